@@ -56,7 +56,8 @@
 //     Lean definition (`o<k>_<callee>`, one per call site, in order of
 //     appearance) and, when "trace" is set, the definition also returns the
 //     list of opaque calls reached, in order, each with the values of its
-//     arguments of scalar type — so "which external effects happen, in which
+//     arguments of scalar type (a slice expression `a[i:j]` is
+//     rendered as "a[" ++ i ++ ":" ++ j ++ "]" with the bounds' values) — so "which external effects happen, in which
 //     order and with which arguments" is part of the translated meaning; calls
 //     listed under "pure" are opaque values that are not traced; a call to a
 //     translated function that itself has opaque parameters is opaque too;
@@ -1103,6 +1104,19 @@ func (c *fctx) traceArg(a ast.Expr) (code string) {
 		return code
 	}
 	lt := c.t.leanType(tv.Type)
+	if se, ok := a.(*ast.SliceExpr); ok && lt != "String" {
+		// a slice expression: the operand's source text with the bounds' values
+		parts := []string{fmt.Sprintf("%q", c.show(se.X)+"[")}
+		for i, b := range []ast.Expr{se.Low, se.High, se.Max} {
+			if i > 0 && (i < 2 || se.Slice3) {
+				parts = append(parts, "\":\"")
+			}
+			if b != nil {
+				parts = append(parts, c.traceArg(b))
+			}
+		}
+		return "(" + strings.Join(append(parts, "\"]\""), " ++ ") + ")"
+	}
 	if lt != "Int" && lt != "Bool" && lt != "String" {
 		return code
 	}
